@@ -124,6 +124,13 @@ for _call, _tr_in in (("hcall0(func() { probe(\"cb\"); %s; probe(\"not here\") }
         EXPECT.append({"src": "%s\nprobe(\"after the call\")" % _c, "field": "trace", "want": _tr_in, "why": "an uncaught error inside a callback ends the script"})
         EXPECT.append({"src": "%s\nprobe(\"after the call\")" % _c, "field": "status", "want": "err", "why": "an uncaught error inside a callback is returned to the host"})
 
+# the finally block runs after a try whose error was caught - read strictly, also when the catch block itself does not end normally
+for _src, _why in (("try { throw \"a\" } catch e { throw \"b\" } finally { probe(\"f\") }", "the catch block raises"),
+                   ("func f() { try { throw \"a\" } catch e { return 1 } finally { probe(\"f\") } }; f()", "the catch block returns"),
+                   ("for i in [1] { try { throw \"a\" } catch e { break } finally { probe(\"f\") } }", "the catch block leaves the loop")):
+    EXPECT.append({"src": _src, "field": "trace", "want": "(s:66)", "finding": "finally-skipped-when-catch-leaves",
+                   "why": "finally runs after a try whose error was caught, also when " + _why})
+
 
 def run(tier, seed, replay=None):
     return interpcheck.run_interp_check(
